@@ -1,6 +1,7 @@
 package main
 
 import (
+	"encoding/json"
 	"context"
 	"fmt"
 	"strings"
@@ -97,9 +98,9 @@ func (k *keepStore) Append(ctx context.Context, e *eb.Event) (eb.Offset, error) 
 	return k.namesStore.Append(ctx, e)
 }
 
-func runShape[T any](k int, v T) string { return runShapeOn(k, v, false) }
+func runShape[T any](k int, v T, others ...T) string { return runShapeOn(k, v, false, others...) }
 
-func runShapeOn[T any](k int, v T, sqlite bool) string {
+func runShapeOn[T any](k int, v T, sqlite bool, others ...T) string {
 	ctx := context.Background()
 	inner, done := newNamesStore(sqlite)
 	defer done()
@@ -137,6 +138,9 @@ func runShapeOn[T any](k int, v T, sqlite bool) string {
 	}
 	n2 := 0
 	bus6 := eb.New(eb.WithStore(mem))
+	// upcasters for unrelated names are registered on this bus: which stored events a typed subscription matches does not
+	// depend on what else the registry knows
+	_ = eb.RegisterUpcastFunc(bus6, "unrelated.v1", "unrelated.v2", func(d json.RawMessage) (json.RawMessage, string, error) { return d, "unrelated.v2", nil })
 	if err := eb.SubscribeWithReplay(ctx, bus6, "id2", func(e T) { n2++ }); err != nil {
 		return fmt.Sprintf("shape %d !subscribe2 %v", k, err)
 	}
@@ -154,11 +158,32 @@ func runShapeOn[T any](k int, v T, sqlite bool) string {
 		upto = e.Type
 		return nil
 	})
+	// further values of the same Go type, persisted later in the same process: each is stored under the name EventType
+	// reports for THAT value, and a typed subscription matches it
+	second := true
+	for _, o := range append([]T{v}, others...) {
+		s3, done3 := newNamesStore(sqlite)
+		eb.Publish(eb.New(eb.WithStore(s3)), o)
+		evs3, _, _ := s3.Read(ctx, eb.OffsetOldest, 0)
+		n3 := 0
+		b3 := eb.New(eb.WithStore(s3))
+		_ = eb.RegisterUpcastFunc(b3, "unrelated.v1", "unrelated.v2", func(d json.RawMessage) (json.RawMessage, string, error) { return d, "unrelated.v2", nil })
+		err := eb.SubscribeWithReplay(ctx, b3, "id3", func(e T) { n3++ })
+		if len(evs3) != 1 || evs3[0].Type != eb.EventType(o) || err != nil {
+			second = false
+		}
+		// shapes whose typed routes cannot know a value-dependent name are the model's business (replayed=…); here only
+		// the shapes that the first value was matched for
+		if n == 1 && n3 != 1 {
+			second = false
+		}
+		done3()
+	}
 	kept := "?"
 	if len(mem.kept) == 1 {
 		kept = mem.kept[0].Type // the name in the envelope the store was handed, looked at again at the very end
 	}
-	return fmt.Sprintf("shape %d stored=%s eventtype=%s replayed=%s upfrom=%s upto=%s storedafter=%s replayedafter=%s kept=%s", k, stored, eb.EventType(v), b01(n == 1), b01(upfrom), upto, storedAfter, b01(n2 == 1), kept)
+	return fmt.Sprintf("shape %d stored=%s eventtype=%s replayed=%s upfrom=%s upto=%s storedafter=%s replayedafter=%s kept=%s second=%s", k, stored, eb.EventType(v), b01(n == 1), b01(upfrom), upto, storedAfter, b01(n2 == 1), kept, b01(second))
 }
 
 func namesDomain(lines []string) []string {
@@ -176,7 +201,7 @@ func namesDomain(lines []string) []string {
 		case 1:
 			out = append(out, runShape(k, &NPlain{7}))
 		case 2:
-			out = append(out, runShape(k, NVal{7}))
+			out = append(out, runShape(k, NVal{7}, NVal{8}))
 		case 3:
 			out = append(out, runShape(k, &NVal{7}))
 		case 4:
@@ -192,13 +217,13 @@ func namesDomain(lines []string) []string {
 		case 9:
 			out = append(out, runShape(k, &state.ControlMessage{}))
 		case 10:
-			out = append(out, runShape(k, NDyn{7}))
+			out = append(out, runShape(k, NDyn{7}, NDyn{8}, NDyn{7}))
 		case 11:
-			out = append(out, runShape(k, &NDyn{7}))
+			out = append(out, runShape(k, &NDyn{7}, &NDyn{9}))
 		case 12:
-			out = append(out, runShape(k, NDynP{7}))
+			out = append(out, runShape(k, NDynP{7}, NDynP{8}))
 		case 13:
-			out = append(out, runShape(k, &NDynP{7}))
+			out = append(out, runShape(k, &NDynP{7}, &NDynP{8}, &NDynP{7}))
 		case 14:
 			out = append(out, runShape(k, (*NPtr)(nil))) // a typed nil pointer is an event of type *NPtr too
 		case 15:
